@@ -235,6 +235,100 @@ fn judge(c: &Case, o: &Obs) -> Result<Cow<'static, str>, Violation> {
     }
 }
 
+/// The destination stops reading while the client keeps uploading; what the destination sends in
+/// the meantime must still reach the client (the directions are independent).
+async fn stalled_upload_case(h2: bool) -> Result<(usize, usize, bool), String> {
+    let dst = tokio::net::TcpListener::bind("127.0.0.1:0").await.map_err(|e| e.to_string())?;
+    let daddr = dst.local_addr().unwrap();
+    let world = make_world(&Cfg { allow_private: true, clients: vec![("u".into(), "p".into())], ..Cfg::default() })?;
+    let peer: SocketAddr = "198.51.100.7:40000".parse().unwrap();
+    let (io, d) = door::open(&world.ctx, if h2 { VProtocol::Http2 } else { VProtocol::Http1 }, "m.t", None, peer, 1 << 16);
+    let spec = ReqSpec::connect(&daddr.to_string()).with_auth(Some(b"Basic dTpw".to_vec()));
+    let mut h1 = None;
+    let mut st = None;
+    let mut keep = None;
+    if h2 {
+        let mut cl = H2Client::connect(io).await?;
+        st = Some(cl.request(spec.h2_request()?, false).await?);
+        keep = Some(cl);
+    } else {
+        let mut cl = H1Client::new(io);
+        cl.send(&spec.h1_bytes()).await;
+        h1 = Some(cl);
+    }
+    let mut acc = Box::pin(dst.accept());
+    let Some(Ok((mut ds, _))) = door::until(&mut acc, Duration::from_secs(3)).await else {
+        return Err("the destination was not connected".into());
+    };
+    drop(acc);
+    let _ = ds.set_linger(Some(Duration::ZERO));
+    if let Some(s) = st.as_mut() {
+        if !matches!(s.response(Duration::from_secs(3)).await, H2Outcome::Response(ref r) if r.status == 200) {
+            return Err("CONNECT was not answered 200".into());
+        }
+    }
+    if let Some(cl) = h1.as_mut() {
+        if cl.response(Duration::from_secs(3)).await.map(|r| r.status) != Some(200) {
+            return Err("CONNECT was not answered 200".into());
+        }
+    }
+    // upload until nothing more is taken (the destination never reads)
+    let piece = vec![0x55u8; 1 << 16];
+    let mut uploaded = 0usize;
+    for _ in 0..400 {
+        let took = if let Some(cl) = h1.as_mut() {
+            let mut w = Box::pin(cl.io.write_all(&piece));
+            matches!(door::until(&mut w, Duration::from_millis(150)).await, Some(Ok(())))
+        } else {
+            let s = st.as_mut().unwrap();
+            s.tx.reserve_capacity(piece.len());
+            let cap = {
+                let mut f = Box::pin(std::future::poll_fn(|cx| s.tx.poll_capacity(cx)));
+                door::until(&mut f, Duration::from_millis(150)).await
+            };
+            match cap {
+                Some(Some(Ok(n))) if n > 0 => s.tx.send_data(bytes::Bytes::copy_from_slice(&piece[..n.min(piece.len())]), false).is_ok(),
+                _ => false,
+            }
+        };
+        if !took {
+            break;
+        }
+        uploaded += piece.len();
+    }
+    // the destination answers although it has not read the upload
+    let down = pattern(3000, 42);
+    {
+        let mut w = Box::pin(ds.write_all(&down));
+        door::until(&mut w, Duration::from_secs(2)).await;
+    }
+    let mut got = vec![];
+    let t0 = std::time::Instant::now();
+    while got.len() < down.len() && t0.elapsed() < Duration::from_secs(3) {
+        if let Some(cl) = h1.as_mut() {
+            cl.pump(20).await;
+            got = cl.inbuf.clone();
+            if cl.eof {
+                break;
+            }
+        }
+        if let Some(s) = st.as_mut() {
+            let (b, ended, _) = s.body(20).await;
+            got.extend_from_slice(&b);
+            if ended {
+                break;
+            }
+        }
+    }
+    let intact = down.starts_with(&got);
+    drop(ds);
+    drop(h1);
+    drop(st);
+    drop(keep);
+    d.task.abort();
+    Ok((uploaded, got.len(), intact))
+}
+
 fn cases() -> Vec<Case> {
     let mut v = vec![];
     for h2 in [false, true] {
@@ -264,6 +358,23 @@ pub fn run_into(rep: &mut Report, _tier: Tier) {
         "what":"real accept path + real TCP forwarder: {HTTP/1.1, HTTP/2} x destination sends {0, 5, 3000, 200000} bytes then {FIN, RST} x client {only reads, uploads 3000 bytes then half-closes, uploads and keeps open}"}));
     rep.cov("door_ending_cases", r.evaluations);
     rep.violations(r.violations);
+    for h2 in [false, true] {
+        let p = if h2 { "h2" } else { "h1" };
+        let case = json!({"kind":"door","stalled_upload":true,"h2":h2});
+        match rt::run_real(stalled_upload_case(h2)) {
+            Err(e) => rep.violation(Violation::new("C02:machinery", e, case)),
+            Ok((uploaded, got, intact)) => {
+                if got != 3000 || !intact {
+                    rep.violation(Violation::new(
+                        format!("C02:door:download-stalled-by-upload-backpressure:{p}"),
+                        format!("the destination stopped reading after the client had uploaded {uploaded} bytes and then sent 3000 bytes: the client received {got} of them within 3 s (intact: {intact})"),
+                        case,
+                    ));
+                }
+                rep.sub.push(json!({"sub":"door-stalled-upload","protocol":p,"uploaded_before_stall":uploaded,"downloaded":got}));
+            }
+        }
+    }
 }
 
 /// ad-hoc probe (not part of any verdict): does an active HTTP/1.1 tunnel survive the client
@@ -337,6 +448,14 @@ async fn probe_listener_timeout(h2: bool) -> Result<String, String> {
 }
 
 pub fn replay(case: &serde_json::Value) -> Result<(), Violation> {
+    if case["stalled_upload"].as_bool() == Some(true) {
+        let h2 = case["h2"].as_bool().unwrap_or(false);
+        let (uploaded, got, intact) = rt::run_real(stalled_upload_case(h2)).map_err(|e| Violation::new("C02:machinery", e, json!({})))?;
+        if got != 3000 || !intact {
+            return Err(Violation::new(format!("C02:door:download-stalled-by-upload-backpressure:{}", if h2 { "h2" } else { "h1" }), format!("uploaded {uploaded}, downloaded {got} of 3000 (intact: {intact})"), case.clone()));
+        }
+        return Ok(());
+    }
     if case["probe"].as_str() == Some("listener-timeout") {
         let r = rt::run_paused(probe_listener_timeout(case["h2"].as_bool().unwrap_or(false)));
         eprintln!("probe: {r:?}");
